@@ -184,3 +184,17 @@ func (m *Model) OrdTieStats() (ok, bad int) {
 	}
 	return
 }
+
+// OrdFragDLStats: how many steps of the last replayed history lie inside the fragment of `C05_fragment_dl`
+// (every operation but the seeks; acknowledgements of handed-out deliveries; tie-closed rounds of the jobs
+// that delete delivery rows), and how many steps that are not seeks lie outside it
+func (m *Model) OrdFragDLStats() (in, out int) {
+	outs, err := m.Replay([]string{"ordstats"})
+	if err != nil || len(outs) != 1 {
+		return
+	}
+	if i := strings.Index(outs[0], " fragdlin="); i >= 0 {
+		fmt.Sscanf(outs[0][i:], " fragdlin=%d fragdlout=%d", &in, &out)
+	}
+	return
+}
